@@ -128,3 +128,96 @@ Theorem C06_history_monitor_constructors : forall ops state op n masks exts comp
     (steps_of ops (fst (run_wops ops w))) (dest_log (w_dest (snd (run_wops ops w)))) = true.
 Proof. exact constructors_c06. Qed.
 Print Assumptions C06_history_monitor_constructors.
+
+(* ------------------------------------------------------------------------------------
+   ReadFrom from a source that FAILS (repaired defect F21: the message is dirty as soon as
+   bytes are accepted).  [wopx], [run_wopsx], [as_eof], [fail_src] are defined in
+   model/WriterRF.v; [c06_opx] in proofs/WriterReadFromFailProofs.v; [log_bytes], [wire] in
+   proofs/WriterFrameProofs.v.  A failing source = any chunking of its bytes [flat s], then
+   an error other than io.EOF ([tl s = TFail]). *)
+Require Import WriterRF WriterReadFromFailProofs.
+
+(* For EVERY working writer state (size invariant, no sticky error, a destination that does
+   not fail, extensions [] or [c]; automatic flushing enabled or not) in which the fragments
+   [cur] of the open message have been sent before ([cur] = [] when none):
+   ReadFrom accepts ALL the bytes the source delivers before it fails and reports the
+   source's error, which is not sticky; what has left meanwhile are whole NON-final frames
+   [fs] continuing the message, and no byte is lost (payloads of [fs] ++ buffer = old buffer
+   ++ accepted bytes).  If at least one byte was accepted, or the message was dirty already
+   (in every reachable state buffered bytes or sent fragments imply dirty), the next Flush
+   SENDS a final frame [f]: the frames of the message [cur ++ fs ++ [f]] carry the opcode
+   on the first frame only, continuation afterwards, only the last one final, masked iff
+   client side, RSV1 only on the first frame of a compressed data message, and their
+   unmasked payloads are exactly: what was sent and buffered of the message before ++ the
+   accepted bytes.  The writer is then clean: the next message starts with its opcode. *)
+Theorem C06_read_from_failing_source_then_flush : forall w cur s comp,
+  writer_inv w -> wf_writer w -> w_err w = None -> d_fail_at (w_dest w) = None ->
+  ((w_exts w = [] /\ comp = false) \/ w_exts w = [comp]) ->
+  msg_frames_ok (client_side (w_state w)) (w_op w) comp true cur = true -> w_fseq w = len cur ->
+  wf_src s -> wf_bytes (flat s) -> tl s = TFail ->
+  2 * (14 + 2 * (len (w_buf w) + len (flat s))) <= max_int ->
+  exists w1 s1 fs,
+    read_from s w = (inr (len (flat s), Some WDest), w1, s1) /\
+    w_err w1 = None /\
+    log_bytes (w_dest w1) = log_bytes (w_dest w) ++ wire fs /\
+    Forall wf_pframe fs /\ Forall (fun f => h_fin (pf_header f) = false) fs /\
+    msg_frames_ok (client_side (w_state w)) (w_op w) comp true (cur ++ fs) = true /\
+    msg_payload fs ++ w_buf w1 = w_buf w ++ flat s /\
+    (w_dirty w = true \/ flat s <> [] ->
+     exists f w2,
+       flush w1 = (inr None, w2) /\
+       log_bytes (w_dest w2) = log_bytes (w_dest w) ++ wire (fs ++ [f]) /\
+       wf_pframe f /\ h_fin (pf_header f) = true /\
+       msg_frames_ok (client_side (w_state w)) (w_op w) comp true (cur ++ fs ++ [f]) = true /\
+       msg_payload (cur ++ fs ++ [f]) = msg_payload cur ++ w_buf w ++ flat s /\
+       w_buf w2 = [] /\ w_dirty w2 = false /\ w_fseq w2 = 0 /\ w_err w2 = None).
+Proof. exact read_from_fail_then_flush. Qed.
+Print Assumptions C06_read_from_failing_source_then_flush.
+
+(* in EVERY writer state (failing destination, panics, flushing disabled included): a
+   source that fails after delivering at least one byte, or read into a message that is
+   dirty already, leaves the writer in exactly the state a source ending with io.EOF after
+   the same bytes in the same chunking leaves it in, and the same count is returned; only
+   the reported error differs *)
+Theorem C06_failing_source_as_eof : forall data sizes w, w_dirty w = true \/ data <> [] ->
+  let '(r1, w1, _) := read_from (mkSrc (chunk_by sizes data) TFail) w in
+  let '(r2, w2, _) := read_from (mkSrc (chunk_by sizes data) TEOF) w in
+  w1 = w2 /\
+  match r1, r2 with
+  | inl p1, inl p2 => p1 = p2
+  | inr (n1, _), inr (n2, _) => n1 = n2
+  | _, _ => False
+  end.
+Proof. exact read_from_failing_source_as_eof. Qed.
+Print Assumptions C06_failing_source_as_eof.
+
+(* hence the full history monitor of (C) holds of EVERY history in which ReadFrom may also
+   be given failing sources that deliver at least one byte: the observations and the
+   destination log are judged as those of the history with io.EOF in place of every failure
+   (one well-formed message per final Flush carrying exactly the accepted bytes, ...) *)
+Theorem C06_history_monitor_failing_sources : forall xs w0 comp,
+  writer_inv w0 -> fresh_writer w0 -> w_op w0 < 16 -> Forall wf_key (w_masks w0) ->
+  ((w_exts w0 = [] /\ comp = false) \/ w_exts w0 = [comp]) ->
+  Forall c06_opx xs -> 28 + 4 * ops_cost (map as_eof xs) <= max_int ->
+  c06_monitor (client_side (w_state w0)) (w_op w0) comp (w_buflen w0)
+    (steps_of (map as_eof xs) (fst (run_wopsx xs w0))) (dest_log (w_dest (snd (run_wopsx xs w0)))) = true.
+Proof. exact c06_monitor_holds_failing_sources. Qed.
+Print Assumptions C06_history_monitor_failing_sources.
+
+(* the instance of F21, as the repaired code behaves (checked against /repo): NewWriterSize(4),
+   server side, text; ReadFrom(4 bytes, then a failure) returns (4, error) after the full
+   buffer has left as a non-final fragment; Flush sends the EMPTY FINAL frame 80 00 (before
+   the repair it sent nothing and the next message continued this one); Write(4 bytes);
+   Flush.  Two complete messages on the wire: 01 04 abcd, 80 00 | 81 04 wxyz *)
+Example C06_read_from_failing_source_instance :
+  match new_writer_size (mkDest [] None) 1 1 4 [] with
+  | inr w0 =>
+    let xs := [XReadFromFail [97;98;99;100] []; XOp WFlush; XOp (WWrite [119;120;121;122]); XOp WFlush] in
+    let '(obs, w1) := run_wopsx xs w0 in
+    map o_n obs = [4; 0; 4; 0] /\
+    map o_err obs = [Some WDest; None; None; None] /\
+    dest_log (w_dest w1) = [[1; 4; 97; 98; 99; 100]; [128; 0]; [129; 4; 119; 120; 121; 122]] /\
+    c06_monitor false 1 false (w_buflen w0) (steps_of (map as_eof xs) obs) (dest_log (w_dest w1)) = true
+  | inl _ => False
+  end.
+Proof. vm_compute. repeat split; reflexivity. Qed.
